@@ -4,7 +4,7 @@ HOOKS = {
     "guard": "verif",
     "enable": "go test -tags verif; white-box drivers are injected with `go test -overlay` (nothing is written under /repo); hook call sites are `if verifOn {...}` with verifOn a constant false unless the tag is set",
     "baseline_off_cmd": "cd /repo && export GOFLAGS=-mod=mod GOPROXY=off GOSUMDB=off GOTOOLCHAIN=local && for m in . v2; do (cd $m && go test -vet=off -count=1 -timeout 25m ./...) ; done",
-    "source_commits": [],
+    "source_commits": ["ff568a1", "e8b7a00"],
     "add_only": True,
 }
 ENGINES = [
@@ -61,6 +61,24 @@ CHECKS.update({
     "C12": {"technique": "TLA+ spec V2Load (intended semantics) enumerates trees x spellings; each materialised on disk and loaded by the real LoadLicenses; assets directory and DefaultClassifier compared by Match results",
             "text": "All sets of <= 2 (3) files from 104 candidates (depth 1..5, four suffix kinds) x 5 spellings; corpus keys and Match equivalence with AddContent; LoadLicenses(assets) under 4 spellings and DefaultClassifier on all 431 documents + scenarios.",
             "note": "exhaustive within the candidate set."},
+})
+
+CHECKS.update({
+    "C13": {"technique": "TLA+ generator/contract V1Classify + V1Contract: TLC-enumerated cases and seeded cases replayed into the real stringclassifier (crash-isolated, resumable), call/return events validated by TLC (TraceV1: ExactFound, ConfRange, InBounds, NearestSelf, NoPanic)",
+            "text": "Every case of 1-2 known values over words / punctuation / metacharacters with copies in context (23 k quick, 71 k+ thorough) in three concretisations, plus seeded values up to 80 tokens over five vocabularies incl. invalid UTF-8; a process death is attributed to the journalled case.",
+            "note": "copies are token aligned; the fuzzy path (searchset heuristics) is checked against its contract only."},
+    "C14": {"technique": "TLA+ protocol spec V1Classifier (lazy search-set) model-checked incl. liveness + hook-event histories of concurrent calls validated by TLC with vector-clock happens-before (TraceConc) + results vs sequential results (TraceV1); Go race detector as second sensor",
+            "text": "TLC explores all interleavings of 3 callers x 2 values of the repaired protocol (and refutes the check-outside-lock variant); on the real code every lock operation, access and fork is an event and TLC recomputes happens-before, rejecting the history at the first unordered conflicting access.",
+            "note": "25 (150) rounds of 4 (8) callers; License with precomputed sets covered through results and the race detector."},
+    "C15": {"technique": "recorded NearestMatch/MultipleMatch answers of an archive-loaded and a directly built License validated by TLC (TraceV1 memo equality, key sets, normalised values)",
+            "text": "Seeded subsets/orderings of the shipped licenses plus synthetic files go through the real ArchiveLicenses and New(ArchiveBytes); both classifiers must hold the same keys and values and answer 16 (60) queries per round identically.",
+            "note": "NearestMatch compared at or above the threshold only (undefined among ties; go-diff's 1 s deadline)."},
+    "C16": {"technique": "recorded NearestMatch/MultipleMatch calls on corpus texts and presentation variants validated by TLC (TraceV1 guards want/floor)",
+            "text": "40 (178) shipped licenses x {original, upper, lower, re-flowed, decorated}: canonical name at or above the threshold (1.0 when the normalised text is equal); every MultipleMatch confidence at or above the threshold.",
+            "note": "the archive is built in the check with ArchiveLicenses; sampled in quick."},
+    "C17": {"technique": "TLA+ spec V1Tokens (per-rune tokenizer over byte-width classes) model-checked, every enumerated string replayed into the real Tokenize; FindPotentialMatches on all low-vocabulary pairs validated by TLC (TraceV1.RangesOK)",
+            "text": "TextAtOffset / Ordered / CoversNonSpace hold on every class string <= 5 (6); the real tokenizer agrees on all of them in two concretisations; candidate ranges of 15 k+ repetitive pairs and seeded long noisy pairs satisfy the target-side bounds and convert to byte ranges inside the target.",
+            "note": "the searchset range heuristics are checked against their contract, not transcribed."},
 })
 for e in ENGINES:
     e["serves_properties"] = sorted(CHECKS)
